@@ -107,6 +107,8 @@ def make_desc(job):
         o["pop_scales"] = (1,)
         o["any_pop_p"] = 0.0
     desc = scenario.gen_scenario(job["seed"], opt, fam, mode, engine_g.make_config, tier=job["tier"], opts=o)
+    if o.get("big_dim"):
+        desc["step_cap"] = 12_000_000       # bit-string optimizers draw per bit: events grow with the square of the size
     if o.get("history_utils") and desc.get("history"):
         desc["history_utils"] = True
     if o.get("objective_bias") == "plateau" and r.random() < 0.4 and "multi" not in desc["task"]["objective"]:
